@@ -40,6 +40,9 @@ structure Cfg where
   /-- `_grouper` returns the groups sorted by leader label (the code before its repair) instead
       of in feature order -/
   sortGroupsByLabel : Bool := false
+  /-- resolution of rank tests that exact rate ties leave open (see `resolveRanks`): the pair of rate
+      vectors (train, dev) ↦ whether `sort_values` happened to give the same order of groups -/
+  rankOracle : List ((List (Option Rat) × List (Option Rat)) × Bool) := []
 deriving Repr, Inhabited
 
 /-- a (cross)table: label ↦ row, in feature order; `tie` is the Kruskal tie correction
@@ -179,6 +182,19 @@ def ranksCertain (t d : List (String × Row)) : Bool :=
   (pairs t).all (fun p => rateLt (rate p.1.2) (rate p.2.2) || rateLt (rate p.2.2) (rate p.1.2)) &&
   (pairs d).all (fun p => rateLt (rate p.1.2) (rate p.2.2) || rateLt (rate p.2.2) (rate p.1.2))
 
+/-- The rank test `train.sort_values(rate).index == dev.sort_values(rate).index`.  With exact rate ties
+    its outcome depends on how the (unstable) sort orders equal keys, which the model leaves open:
+    (possible, certain).  The harness can close it with what `numpy.argsort` does on the very rate
+    vectors (`cfg.rankOracle`); an oracle answer is only ever used where the test is open. -/
+def resolveRanks (cfg : Cfg) (gt gd : List (String × Row)) : Bool × Bool :=
+  let rk := ranksPossible gt gd
+  let rc := ranksCertain gt gd
+  if rk && !rc then
+    match cfg.rankOracle.lookup (gt.map (fun p => rate p.2), gd.map (fun p => rate p.2)) with
+    | some b => (b, b)
+    | none => (rk, rc)
+  else (rk, rc)
+
 structure Viab where
   trainViable : Bool
   minFreqTrain : Bool
@@ -210,8 +226,8 @@ def viability (cfg : Cfg) (train : List (String × Row)) (dev : Option (List (St
     let gd := grouper cfg d comb
     let mfd := minFreqOk cfg (gd.map (·.2))
     let drd := distinctRates (gd.map (·.2))
-    let rk := ranksPossible gt gd
-    ⟨tv, mf, dr, true, rk && mfd && drd, mfd, rk, drd, ranksCertain gt gd⟩
+    let rr := resolveRanks cfg gt gd
+    ⟨tv, mf, dr, true, rr.1 && mfd && drd, mfd, rr.1, drd, rr.2⟩
 
 /-! ### the search -/
 
